@@ -66,6 +66,7 @@ pub fn salted_hash<P: Payload>(i: &InitState<P>) -> Vec<u8> {
 /// Returns (message bytes, signed length, signature, parse result as text).
 pub fn build_and_parse(
     body: &[u8], seed: &[u8], trusted: &[Ed25519PublicKey], sig_ok: bool, hash_ok: bool, tail: &[u8], truncate: Option<usize>,
+    sig_len: Option<(u8, usize)>,
 ) -> (Vec<u8>, usize, Vec<u8>, String) {
     let kp = Ed25519KeyPair::from_seed_unchecked(seed).unwrap();
     let mut pk = [0u8; ED25519_PUBLIC_KEY_LEN];
@@ -85,8 +86,19 @@ pub fn build_and_parse(
     if !sig_ok {
         sigb[5] ^= 0x10;
     }
-    msg.push(sigb.len() as u8);
-    msg.extend_from_slice(&sigb);
+    match sig_len {
+        None => {
+            msg.push(sigb.len() as u8);
+            msg.extend_from_slice(&sigb);
+        }
+        Some((declared, present)) => {
+            // declared signature length vs signature bytes actually present (padded with a fixed pattern)
+            msg.push(declared);
+            let mut padded = sigb.clone();
+            padded.resize(present.max(sigb.len()), 0xa5);
+            msg.extend_from_slice(&padded[..present]);
+        }
+    }
     msg.extend_from_slice(tail);
     if let Some(n) = truncate {
         msg.truncate(n);
